@@ -557,9 +557,11 @@ def run(tier, seed, deadline):
     acc.info["part4 cases"] = len(cases4)
 
     if tier == "quick":
-        plans = [(3, {}, 7), (3, {0: (1, 0)}, 6), (3, {0: (1, 1), 1: (2, 0)}, 6), (4, {}, 6)]
+        plans = [(3, {}, 7), (3, {0: (1, 0)}, 6), (3, {0: (1, 1), 1: (2, 0)}, 6), (4, {}, 6),
+                 (3, {0: (0, 1)}, 6), (3, {0: (0, 1), 1: (0, 0)}, 5)]       # a task that re-arms itself from its own handler
     else:
-        plans = [(3, {}, 9), (3, {0: (1, 0)}, 8), (3, {0: (1, 1), 1: (2, 0)}, 8), (4, {}, 8), (4, {0: (3, 0), 2: (1, 1)}, 7)]
+        plans = [(3, {}, 9), (3, {0: (1, 0)}, 8), (3, {0: (1, 1), 1: (2, 0)}, 8), (4, {}, 8), (4, {0: (3, 0), 2: (1, 1)}, 7),
+                 (3, {0: (0, 1)}, 8), (3, {0: (0, 1), 1: (0, 0)}, 7), (4, {0: (0, 2), 1: (1, 1)}, 7)]
     for k, (n, chain, depth) in enumerate(plans):
         # split the remaining budget between the remaining plans
         remaining = deadline - time.time()
